@@ -10,14 +10,14 @@ git -C $S checkout -q --detach "$(git -C /repo rev-parse HEAD)"; git -C $S reset
 run_demo() { ( cd $S && PYTHONPATH=$S/src PYTHONHASHSEED=0 timeout 600 /venv/bin/python "$SRC/$DEMO" >/tmp/seedrun/demo.log 2>&1; echo $? ); }
 case "$DEMO" in test_*) run_demo() { ( cd $S && PYTHONPATH=$S/src PYTHONHASHSEED=0 timeout 600 /venv/bin/python -m pytest -q -p no:cacheprovider "$SRC/$DEMO" >/tmp/seedrun/demo.log 2>&1; echo $? ); } ;; esac
 A=$(run_demo)
-git -C $S apply "$SRC/$PATCH" || { echo "patch does not apply"; exit 2; }
+git -C $S apply "$SRC/$PATCH" 2>/dev/null || { git -C $S reset -q --hard; git -C $S apply --3way "$SRC/$PATCH" >/dev/null 2>&1 && [ -z "$(git -C $S diff --name-only --diff-filter=U)" ] && git -C $S reset -q && git -C $S diff > /tmp/seedrun/rebased.diff && PATCH_REBASED=1 || { echo "$NAME: patch does not apply to HEAD (conflict)"; git -C $S reset -q --hard; exit 2; }; }
 B=$(run_demo)
 SUITE=$(cd /verif && VERIF_REPO_ROOT=$S /venv/bin/python harness/baseline_check.py -n 8 | head -1)
 git -C $S reset -q --hard; git -C $S clean -fdq
 echo "$NAME: demo clean exit=$A, demo patched exit=$B, suite: $SUITE"
 if [ "$A" = 0 ] && [ "$B" != 0 ] && echo "$SUITE" | grep -q "missing=0"; then
   D=/verif/seeded/$NAME; mkdir -p $D
-  cp "$SRC/$PATCH" $D/patch.diff; cp "$SRC/$DEMO" $D/$(case "$DEMO" in test_*) echo test_demo.py;; *) echo demo.py;; esac)
+  if [ "${PATCH_REBASED:-0}" = 1 ]; then cp /tmp/seedrun/rebased.diff $D/patch.diff; cp "$SRC/$PATCH" $D/patch.orig.diff; else cp "$SRC/$PATCH" $D/patch.diff; fi; cp "$SRC/$DEMO" $D/$(case "$DEMO" in test_*) echo test_demo.py;; *) echo demo.py;; esac)
   python3 - "$SRC/$META" "$D/meta.json" "$A" "$B" "$SUITE" <<'PY'
 import json,sys
 m=json.load(open(sys.argv[1]))
